@@ -27,10 +27,10 @@ YearlyZones == {<<Ob("STANDARD", "STD", p[2], p[1], YStart(r[1][1], r[1][2], r[1
 \* east of Greenwich its local time is later than the UNTIL read as a local time)
 UntilAt(r, from, y0) == YStart(r[1], r[2], r[3], r[4], y0 + 3) - from
 UntilXZones == {<<Ob("STANDARD", "STD", p[2], p[1], YStart(r[1][1], r[1][2], r[1][3], r[1][4], y0),
-                     Yearly(r[1][1], r[1][2], r[1][3], r[1][4], y0, IF which = 1 THEN "until" ELSE "open", IF which = 1 THEN UntilAt(r[1], p[2], y0) ELSE 0)),
+                     Yearly(r[1][1], r[1][2], r[1][3], r[1][4], y0, IF which \in {1, 3} THEN "until" ELSE "open", IF which \in {1, 3} THEN UntilAt(r[1], p[2], y0) ELSE 0)),
                   Ob("DAYLIGHT", "DST", p[1], p[2], YStart(r[2][1], r[2][2], r[2][3], r[2][4], y0),
-                     Yearly(r[2][1], r[2][2], r[2][3], r[2][4], y0, IF which = 2 THEN "until" ELSE "open", IF which = 2 THEN UntilAt(r[2], p[1], y0) ELSE 0))>> :
-                  y0 \in Y0s, p \in OffPairs, r \in Rules, which \in {1, 2}}
+                     Yearly(r[2][1], r[2][2], r[2][3], r[2][4], y0, IF which \in {2, 3} THEN "until" ELSE "open", IF which \in {2, 3} THEN UntilAt(r[2], p[1], y0) ELSE 0))>> :
+                  y0 \in Y0s, p \in OffPairs, r \in Rules, which \in {1, 2, 3}}     \* 3: both rules end on their boundary
 RDateZones == {<<Ob("STANDARD", "S", p[2], p[1], Minutes(y0, 10, 25, 180), RDate({Minutes(y0 + 1, 10, 30, 180), Minutes(y0 + 3, 11, 2, 180)})),
                  Ob("DAYLIGHT", "D", p[1], p[2], Minutes(y0 + 1, 3, 28, 120), RDate({Minutes(y0 + 3, 4, 1, 120)}))>> :
                  y0 \in Y0s, p \in OffPairs}
